@@ -687,6 +687,8 @@ func (m *Dense) Kronecker(a, b Matrix) {
 	rb, cb := b.Dims()
 
 	m.reuseAsNonZeroed(ra*rb, ca*cb)
+	m.checkOverlapMatrix(a)
+	m.checkOverlapMatrix(b)
 	for i := 0; i < ra; i++ {
 		for j := 0; j < ca; j++ {
 			m.slice(i*rb, (i+1)*rb, j*cb, (j+1)*cb).Scale(a.At(i, j), b)
